@@ -631,7 +631,7 @@ def family(prop, t, sd):
         specs += degenerate_family() + cycling_family() + tolerance_scale_family(t)
         # 4..7-variable knapsack-like MILPs (branch-and-bound trees with more than a handful of nodes)
         import c15
-        specs += c15.knapsacks(33 if t == 'quick' else 330 + sd, 150 if t == 'quick' else 1500)
+        specs += c15.knapsacks(33 if t == 'quick' else 330 + sd, 150 if t == 'quick' else 1500) + c15.gap_family()
     if prop in ('C13', 'C05', 'C14'):
         specs += compiled_continuous_models(t)
     lim = os.environ.get('VERIF_LIMIT')
